@@ -1,11 +1,13 @@
 /-
 The transpose is the exact adjoint, closed, in the list denotation (FuraxProofs/Sem/ListSem.lean): property C03
-without any semantic hypothesis but the adjointness of the kernels of the uninterpreted leaves (dense einsum blocks,
+without any semantic hypothesis but the adjointness of the kernels of the uninterpreted leaves (dense einsum blocks
+with one block array per leaf — those with ONE shared block array are interpreted by the einsum kernel of C14,
+`dense_leaf_adjoint` —,
 observation matrices, opaque operators; Toeplitz operators only in the degenerate case of a rank-0 band array).
 
 `dot x y := (zipWith (· * ·) x y).sum` is the Euclidean pairing of flat real vectors.
 
-0.  the pairing: `dot_comm`, `dot_append`, `dot_vadd_left/right`, `dot_fit_left/right`, `dot_vsmul_*` …
+0.  (0. and 1. are now in FuraxProofs/Sem/DotList.lean) the pairing: `dot_comm`, `dot_append`, `dot_vadd_left/right`, `dot_fit_left/right`, `dot_vsmul_*` …
 1.  `perLeaf_adjoint`: leaf-wise maps that are adjoint leaf by leaf are adjoint.
 2.  leaf kernels: `gatherLeaf_adjoint` (scatter-add is the adjoint of gather, `scatter_adjoint` lifted),
     `gather_perm_adjoint` / `moveLeaf_adjoint` (two gathers that undo each other are adjoint: the inverse
@@ -13,7 +15,7 @@ observation matrices, opaque operators; Toeplitz operators only in the degenerat
     by fixed weights; acceptance depends on the SHAPE of the values only), `stokesMap_adjoint`, `polMap_adjoint`
     (sample-wise maps; `rotT` is the adjoint of `rot`, `hwp` is self-adjoint, `polTMap` is the adjoint of `polMap`).
 3.  `EnvAdjOn E o` / `EnvSymOn E o` (per expression) and `EnvAdj E` (global): assumption A2 / A-kernel on the
-    leaves interpreted by the environment (`isEnvLeaf`: the classes `.dense`, `.obsMatrix`, `.opaque`, and the
+    leaves interpreted by the environment (`isEnvLeaf`: the classes `.obsMatrix`, `.opaque`, `.dense` without a shared block array, and the
     degenerate `.toeplitz` leaves with a rank-0 band array);  `leaf_adjoint`: a THEOREM for every interpreted class under
     `listLeafOK` (identity, homothety, diagonal, index, pack, moveAxis, ravel, reshape, qurot, hwp, polarizer, and
     Toeplitz with a band array `bs ++ [K]`, batched or not: `toepLeaf_adjoint`, `toeplitz_leaf_adjoint`,
@@ -25,7 +27,7 @@ observation matrices, opaque operators; Toeplitz operators only in the degenerat
     (`Valid := WTExpr (fun _ => True) adjLeafOK`: `StructOK` + validity of the leaves), by mutual structural
     induction over ALL constructors.
 6.  `transposeOp_den_structOK`, `transposeOp_den_on`, `transposeOp_den`: the FORM `op.T` computed by the model
-    (`transposeOp`) denotes `denT`; `TFormOK` EXCLUDES dense leaves and asks every `DiagonalInverseOperator` to wrap
+    (`transposeOp`) denotes `denT`; `TFormOK` EXCLUDES the dense leaves without a shared block array and asks every `DiagonalInverseOperator` to wrap
     a `DiagonalOperator` leaf.  `transpose_is_adjoint_closed_on`, `transpose_is_adjoint_closed`: the closed C03.
 7.  non-vacuity: `idEnv_adj`, `matEnv_adj` (every family of matrices satisfies the adjointness assumption),
     `matEnv_sym`; a valid block column of `Index ∘ Diagonal` and of the lazy inverse of a SINGULAR diagonal.
@@ -34,165 +36,12 @@ observation matrices, opaque operators; Toeplitz operators only in the degenerat
     non-self-adjoint operand (so the hypothesis in `TFormOK` is necessary).
 -/
 import FuraxProofs.Sem.ListModel
+import FuraxProofs.Sem.DotList
 import FuraxProofs.Lemmas.TransposeAdjoint
 import Mathlib.LinearAlgebra.Matrix.NonsingularInverse
 namespace Furax
 namespace ListSem
 open Op
-
-/-- the Euclidean pairing of two flat vectors (the longer one is truncated) -/
-def dot (x y : List ℝ) : ℝ := (List.zipWith (· * ·) x y).sum
-
-/-! ### 0. the pairing -/
-
-@[simp] theorem dot_nil_left (y : V) : dot [] y = 0 := by simp [dot]
-@[simp] theorem dot_nil_right (x : V) : dot x [] = 0 := by simp [dot]
-
-theorem dot_cons (a b : ℝ) (x y : V) : dot (a :: x) (b :: y) = a * b + dot x y := by
-  simp [dot]
-
-theorem dot_comm (x y : V) : dot x y = dot y x := by
-  induction x generalizing y with
-  | nil => simp
-  | cons a x ih =>
-    cases y with
-    | nil => simp
-    | cons b y => rw [dot_cons, dot_cons, ih, mul_comm]
-
-theorem dot_append {a c : V} (b d : V) (h : a.length = c.length) :
-    dot (a ++ b) (c ++ d) = dot a c + dot b d := by
-  induction a generalizing c with
-  | nil =>
-    cases c with
-    | nil => simp
-    | cons _ _ => simp at h
-  | cons u a ih =>
-    cases c with
-    | nil => simp at h
-    | cons v c =>
-      simp only [List.cons_append, dot_cons]
-      rw [ih (by simpa using h)]
-      ring
-
-theorem dot_vadd_left (a b y : V) : dot (vadd a b) y = dot a y + dot b y := by
-  induction a generalizing b y with
-  | nil => simp
-  | cons u a ih =>
-    cases b with
-    | nil => simp
-    | cons v b =>
-      cases y with
-      | nil => simp
-      | cons w y =>
-        rw [vadd_cons, dot_cons, dot_cons, dot_cons, ih]
-        ring
-
-theorem dot_vadd_right (x a b : V) : dot x (vadd a b) = dot x a + dot x b := by
-  rw [dot_comm, dot_vadd_left, dot_comm a, dot_comm b]
-
-theorem dot_replicate_zero_left (n : Nat) (y : V) : dot (List.replicate n 0) y = 0 := by
-  induction n generalizing y with
-  | zero => simp
-  | succ n ih =>
-    cases y with
-    | nil => simp
-    | cons b y => rw [List.replicate_succ, dot_cons, ih]; ring
-
-theorem dot_replicate_zero_right (n : Nat) (x : V) : dot x (List.replicate n 0) = 0 := by
-  rw [dot_comm, dot_replicate_zero_left]
-
-/-- normalising the length of the left argument to (at least) the length of the right one changes nothing -/
-theorem dot_fit_left (n : Nat) (x y : V) (h : y.length ≤ n) : dot (fit n x) y = dot x y := by
-  induction n generalizing x y with
-  | zero =>
-    have : y = [] := List.length_eq_zero_iff.mp (by omega)
-    subst this; simp
-  | succ n ih =>
-    cases y with
-    | nil => simp
-    | cons b y =>
-      cases x with
-      | nil =>
-        rw [fit_nil, dot_replicate_zero_left]; simp
-      | cons a x =>
-        rw [fit_succ_cons, dot_cons, dot_cons, ih x y (by simpa using h)]
-
-theorem dot_fit_right (n : Nat) (x y : V) (h : x.length ≤ n) : dot x (fit n y) = dot x y := by
-  rw [dot_comm, dot_fit_left n y x h, dot_comm]
-
-theorem dot_vsmul_left (a : Rat) (x y : V) : dot (vsmul a x) y = (a : ℝ) * dot x y := by
-  induction x generalizing y with
-  | nil => simp [vsmul]
-  | cons u x ih =>
-    cases y with
-    | nil => simp
-    | cons v y =>
-      have : vsmul a (u :: x) = ((a : ℝ) * u) :: vsmul a x := rfl
-      rw [this, dot_cons, dot_cons, ih]
-      ring
-
-theorem dot_vsmul_right (a : Rat) (x y : V) : dot x (vsmul a y) = (a : ℝ) * dot x y := by
-  rw [dot_comm, dot_vsmul_left, dot_comm]
-
-/-- multiplication by fixed weights is self-adjoint (whatever the lengths) -/
-theorem dot_zipWith_mul (w x y : V) :
-    dot (List.zipWith (· * ·) w x) y = dot x (List.zipWith (· * ·) w y) := by
-  induction w generalizing x y with
-  | nil => simp
-  | cons a w ih =>
-    cases x with
-    | nil => simp
-    | cons b x =>
-      cases y with
-      | nil => simp
-      | cons c y =>
-        simp only [List.zipWith_cons_cons, dot_cons, ih]
-        ring
-
-theorem dot_take_drop (n : Nat) (x : V) (a b : V) (ha : a.length = n) (hx : n ≤ x.length) :
-    dot x (a ++ b) = dot (x.take n) a + dot (x.drop n) b := by
-  conv => lhs; rw [← List.take_append_drop n x]
-  exact dot_append _ _ (by rw [List.length_take, ha]; omega)
-
-/-- the pairing in the form of `scatter_adjoint` -/
-theorem dot_eq_zip (x y : V) : dot x y = ((x.zip y).map fun p => p.1 * p.2).sum := by
-  unfold dot
-  rw [List.map_zip_eq_zipWith]
-  rfl
-
-/-! ### 1. leaf-wise maps -/
-
-/-- leaf-wise maps that are adjoint leaf by leaf are adjoint -/
-theorem perLeaf_adjoint (R : LeafS → LeafS → Prop) (f g : LeafS → LeafS → V → V) (ins outs : List LeafS)
-    (h : List.Forall₂ R ins outs)
-    (hR : ∀ li lo, R li lo → ∀ c d : V, c.length = li.size → d.length = lo.size →
-      dot (fit lo.size (f li lo c)) d = dot c (fit li.size (g lo li d))) :
-    ∀ x y : V, x.length = (ins.map LeafS.size).sum → y.length = (outs.map LeafS.size).sum →
-      dot (perLeaf f ins outs x) y = dot x (perLeaf g outs ins y) := by
-  induction h with
-  | nil => intro x y _ _; simp [perLeaf_nil_left]
-  | @cons li lo ins outs hr _ ih =>
-    intro x y hx hy
-    simp only [List.map_cons, List.sum_cons] at hx hy
-    rw [perLeaf_cons, perLeaf_cons, dot_comm,
-      dot_take_drop lo.size y _ _ (fit_length _ _) (by omega),
-      dot_take_drop li.size x _ _ (fit_length _ _) (by omega),
-      dot_comm (y.take _), dot_comm (y.drop _),
-      ih (x.drop li.size) (y.drop lo.size) (by rw [List.length_drop]; omega) (by rw [List.length_drop]; omega),
-      headChunk_of_le (by omega), headChunk_of_le (by omega),
-      hR li lo hr (x.take li.size) (y.take lo.size) (by rw [List.length_take]; omega)
-        (by rw [List.length_take]; omega)]
-
-/-- the same with the length normalisations of `leafDen` / `leafDenT` -/
-theorem leaf_adj_aux (s t : Struct) (R : LeafS → LeafS → Prop) (f g : LeafS → LeafS → V → V)
-    (h : List.Forall₂ R s.leaves t.leaves)
-    (hR : ∀ li lo, R li lo → ∀ c d : V, c.length = li.size → d.length = lo.size →
-      dot (fit lo.size (f li lo c)) d = dot c (fit li.size (g lo li d)))
-    (x y : V) (hx : x.length = s.size) (hy : y.length = t.size) :
-    dot (fit t.size (perLeaf f s.leaves t.leaves (fit s.size x))) y =
-      dot x (fit s.size (perLeaf g t.leaves s.leaves (fit t.size y))) := by
-  rw [fit_eq_self hx, fit_eq_self hy, dot_fit_left _ _ _ (le_of_eq hy), dot_fit_right _ _ _ (le_of_eq hx)]
-  exact perLeaf_adjoint R f g _ _ h hR x y hx hy
 
 /-! ### 2. leaf kernels -/
 
@@ -555,12 +404,15 @@ def isEnvCls : LeafCls → Bool
   | .dense | .toeplitz | .obsMatrix | .opaque => true
   | _ => false
 
-/-- **the leaves interpreted by the environment**: dense einsum blocks, observation matrices, opaque operators, and
+/-- **the leaves interpreted by the environment**: dense einsum blocks with one block array PER leaf (those with ONE
+shared block array, `denseShared`, are interpreted by the einsum kernel `denseLeaf`), observation matrices, opaque
+operators, and
 the degenerate Toeplitz leaves whose band array has rank 0 (`toepK p.vals = none`; Python refuses them); a Toeplitz
 leaf whose band array has a last axis (un-batched `[K]` or batched `bs ++ [K]`) is interpreted by the kernel
 `toepLeaf` -/
 def isEnvLeaf : LeafCls → Params → Bool
-  | .dense, _ | .obsMatrix, _ | .opaque, _ => true
+  | .dense, p => !denseShared p
+  | .obsMatrix, _ | .opaque, _ => true
   | .toeplitz, p => (toepK p.vals).isNone
   | _, _ => false
 
@@ -788,16 +640,30 @@ theorem toeplitz_leaf_adjoint (E : Env) (u : Nat) (p : Params) (h : toepK p.vals
   rw [fit_eq_self (toepLeaf_length _ _ _ _ _), fit_eq_self (toepLeaf_length _ _ _ _ _)]
   exact toepLeaf_adjoint K p.vals li li li c d hc hd
 
+/-- **a dense einsum leaf with a shared block array is adjoint to the leaf with the rewritten subscripts** (C14:
+`denseLeaf_adjoint`, FuraxProofs/Sem/DenseLeaf.lean) -/
+theorem dense_leaf_adjoint (E : Env) (u : Nat) (p : Params) (hs : denseShared p = true) (h : denseOK p) :
+    LeafAdjAt E u .dense p := by
+  intro x y hx hy
+  have hy' : y.length = p.outS.size := by simpa [Op.outS, squareLeaf] using hy
+  simp only [leafDen, leafDenT, squareLeaf, Bool.false_eq_true, if_false, hs, if_true]
+  rw [fit_eq_self hx, fit_eq_self hy', fit_eq_self (denseLeaf_length p h x),
+    fit_eq_self (denseLeafT_length p h y)]
+  exact denseLeaf_adjoint p h x y hx hy'
+
 /-- **leaf adjointness**: for every leaf class but `BroadcastDiagonalOperator`, under the validity of the
 parameters (`listLeafOK`), `leafDenT` is the adjoint of `leafDen`; a THEOREM for the interpreted classes (Toeplitz
-leaves, batched band or not, included), the assumption `hE` (see `EnvAdjOn`) for the leaves interpreted by the
+leaves, batched band or not, and dense einsum leaves with a shared block array included), the assumption `hE` (see `EnvAdjOn`) for the leaves interpreted by the
 environment (`isEnvLeaf`) -/
 theorem leaf_adjoint (E : Env) (u : Nat) (c : LeafCls) (p : Params)
     (hE : isEnvLeaf c p = true → LeafAdjAt E u c p) (hok : adjLeafOK c p) : LeafAdjAt E u c p := by
   obtain ⟨hok, hnb⟩ := hok
   cases c with
   | broadcastDiagonal => exact absurd rfl hnb
-  | dense => exact hE rfl
+  | dense =>
+    by_cases hs : denseShared p = true
+    · exact dense_leaf_adjoint E u p hs (hok hs)
+    · exact hE (by simp [isEnvLeaf, hs])
   | toeplitz =>
     by_cases hK : toepK p.vals = none
     · exact hE (by simp [isEnvLeaf, hK])
@@ -1201,12 +1067,13 @@ theorem den_adjoint (E : Env) (hE : EnvAdj E) : ∀ o, Valid o → ∀ x y : V, 
 mutual
 /-- what `transposeOp_den` needs beyond structural well-formedness, at the positions `transposeOp` visits (it
 goes through compositions and containers, it does not look inside wrappers):
-* NO dense leaf — `transposeOp` makes a NEW leaf (uid 0, transposed subscripts) that the environment cannot know
-  (EXCLUDED; the einsum kernel has its own adjointness theorem, C14);
+* every dense leaf has ONE block array shared by its leaves (`denseShared`: interpreted by the einsum kernel) —
+  `transposeOp` makes a NEW leaf (uid 0, transposed subscripts) that the environment cannot know, so the dense
+  leaves with one block array per leaf are EXCLUDED;
 * every `DiagonalInverseOperator` wraps a `DiagonalOperator` leaf (what its constructor is given by `op.I`): its
   `transpose` returns `self`, which is the adjoint only for a self-adjoint operand. -/
 def TFormOK : Op → Prop
-  | .leaf _ c _ => c ≠ .dense
+  | .leaf _ c p => c = .dense → denseShared p = true
   | .wrap _ k o => k = .diagInv → ∃ u p, o = .leaf u .diagonal p
   | .comp _ ops => TFormOKList ops
   | .cont _ _ _ ops => TFormOKList ops
@@ -1225,7 +1092,7 @@ theorem app_append (E : Env) (a b : List Op) (y : V) : app E (a ++ b) y = app E 
 
 theorem tAt_leaf (E : Env) (u : Nat) (c : LeafCls) (p : Params)
     (hS : c = .toeplitz → toepK p.vals = none → LeafSymAt E u p) (t : Op)
-    (hc : c ≠ .dense) (h : transposeOp (.leaf u c p) = .ok t) : TAt E (.leaf u c p) t := by
+    (hc : c = .dense → denseShared p = true) (h : transposeOp (.leaf u c p) = .ok t) : TAt E (.leaf u c p) t := by
   intro y hy
   by_cases hs : isSymmetricLeaf c = true
   · rw [transpose_symmetric_leaf u c p hs] at h
@@ -1248,14 +1115,33 @@ theorem tAt_leaf (E : Env) (u : Nat) (c : LeafCls) (p : Params)
           exact den.eq_5 _ _ _ _ (by simp [transposeWrapper]) (by simp [transposeWrapper])
             (by simp [transposeWrapper])
       rw [this]
-    · have hcc : c = .moveAxis := by
+    · have hcc : c = .moveAxis ∨ c = .dense := by
         cases c <;> simp_all [isWrappedLeaf, isSymmetricLeaf]
-      subst hcc
-      simp only [transposeOp, isSymmetricLeaf, Bool.false_eq_true, if_false, Except.ok.injEq] at h
-      subst h
-      rw [den, denT]
-      simp only [leafDen, leafDenT, squareLeaf, Bool.false_eq_true, if_false, List.getD_cons_zero,
-        List.getD_cons_succ]
+      rcases hcc with hcc | hcc
+      · subst hcc
+        simp only [transposeOp, isSymmetricLeaf, Bool.false_eq_true, if_false, Except.ok.injEq] at h
+        subst h
+        rw [den, denT]
+        simp only [leafDen, leafDenT, squareLeaf, Bool.false_eq_true, if_false, List.getD_cons_zero,
+          List.getD_cons_succ]
+      · subst hcc
+        have hsh := hc rfl
+        rw [transposeOp_dense] at h
+        cases hd : dualParams p with
+        | error e => rw [hd] at h; cases h
+        | ok p' =>
+          rw [hd] at h
+          cases h
+          have hp' : p' = { p with inS := p.outS, outS := p.inS, str := p'.str } := by
+            unfold dualParams at hd
+            split at hd
+            · cases hd; rfl
+            · cases hd
+          have hsh' : denseShared p' = true := by rw [hp']; exact hsh
+          rw [den, denT]
+          simp only [leafDen, leafDenT, squareLeaf, Bool.false_eq_true, if_false, hsh, hsh', if_true]
+          unfold denseLeafT
+          rw [hd, hp']
 
 theorem tAt_wrap (E : Env) (u : Nat) (k : WrapCls) (o t : Op) (hd : k = .diagInv → ∃ u p, o = .leaf u .diagonal p)
     (h : transposeOp (.wrap u k o) = .ok t) : TAt E (.wrap u k o) t := by
@@ -1327,7 +1213,7 @@ mutual
 theorem tAt (E : Env) : ∀ (o t : Op), EnvSymOn E o → StructOK o → TFormOK o → o.WFT →
     transposeOp o = .ok t → TAt E o t
   | .leaf u c p, t, hS, _, hf, _, h => by
-      have hc : c ≠ .dense := by simpa only [TFormOK] using hf
+      have hc : c = .dense → denseShared p = true := by simpa only [TFormOK] using hf
       have hS' : c = .toeplitz → toepK p.vals = none → LeafSymAt E u p := by simpa only [EnvSymOn, AllLeaves] using hS
       exact tAt_leaf E u c p hS' t hc h
   | .wrap u k o, t, _, _, hf, _, h => by
@@ -1383,14 +1269,16 @@ theorem tAtList (E : Env) : ∀ (ops ts : List Op),
         (tAtList E os ts' hS'.2 (fun o' ho' => hok o' (by simp [ho'])) hf'.2 hw.2 hts)
 end
 
-/-- `Valid`, no dense leaf, and `DiagonalInverseOperator` around `DiagonalOperator` leaves only -/
+/-- `Valid`, every dense leaf has a shared block array, and `DiagonalInverseOperator` around `DiagonalOperator` leaves
+only -/
 def ValidT (o : Op) : Prop := Valid o ∧ TFormOK o
 
 /-- **the FORM `op.T` that the model computes (`transposeOp`, the one the correspondence check compares with the
 real furax) denotes `denT`**: every case of `transposeOp` — symmetric leaves returning themselves, the new
 move-axis leaf with swapped axes and structures, the dedicated and generic transpose wrappers, lazy inverses,
 `DiagonalInverseOperator`, reversed compositions of the transposes, sums, block row ↔ column, block diagonal.
-Only structural well-formedness is used (no leaf validity), dense leaves are EXCLUDED (`TFormOK`). -/
+Only structural well-formedness is used (no leaf validity); the dense leaves with one block array per leaf are
+EXCLUDED (`TFormOK`), those with a shared block array are covered (the new leaf is interpreted by the kernel). -/
 theorem transposeOp_den_structOK (E : Env) (o t : Op) (hS : EnvSymOn E o) (hok : StructOK o) (hf : TFormOK o)
     (hw : o.WFT) (h : transposeOp o = .ok t) : ∀ y : V, y.length = outSize o → den E t y = denT E o y :=
   tAt E o t hS hok hf hw h
@@ -1406,7 +1294,7 @@ theorem transposeOp_den (E : Env) (hE : EnvAdj E) : ∀ o t, ValidT o → o.WFT 
   fun o t hv hw h => tAt E o t (hE.symOn o) hv.1.structOK hv.2 hw h
 
 /-- **C03, closed: `op.T` is the exact adjoint of `op`** in the list denotation — for every valid expression
-without dense leaves, `⟨op x, y⟩ = ⟨x, op.T y⟩` for all `x` of the input size and `y` of the output size, where
+whose dense leaves have a shared block array, `⟨op x, y⟩ = ⟨x, op.T y⟩` for all `x` of the input size and `y` of the output size, where
 `op.T` is the form `transposeOp` computes; the assumptions on the environment concern the uninterpreted leaves of
 `o` only -/
 theorem transpose_is_adjoint_closed_on (E : Env) (o t : Op) (hE : EnvAdjOn E o) (hS : EnvSymOn E o)
@@ -1440,8 +1328,10 @@ def idEnv : Env := ⟨fun _ x => x, fun _ x => x, fun _ _ _ => rfl, fun _ _ _ =>
 theorem idEnv_adj : EnvAdj idEnv := by
   refine ⟨fun u c p hc x y hx hy => ?_, fun u p hK y _ => ?_⟩
   · cases c <;> simp only [isEnvLeaf, Bool.false_eq_true] at hc
-    · simp only [Op.outS, squareLeaf, Bool.false_eq_true, if_false] at hy
-      simp only [leafDen, leafDenT, idEnv, squareLeaf, Bool.false_eq_true, if_false, fit_eq_self hx, fit_eq_self hy]
+    · have hs : denseShared p = false := by simpa using hc
+      simp only [Op.outS, squareLeaf, Bool.false_eq_true, if_false] at hy
+      simp only [leafDen, leafDenT, idEnv, squareLeaf, Bool.false_eq_true, if_false, fit_eq_self hx, fit_eq_self hy,
+        hs]
       rw [dot_fit_left _ _ _ (le_of_eq hy), dot_fit_right _ _ _ (le_of_eq hx)]
     · have hK : toepK p.vals = none := Option.isNone_iff_eq_none.mp hc
       simp only [Op.outS, squareLeaf, if_true] at hy
@@ -1486,8 +1376,9 @@ theorem matEnv_adj (N : Nat) (W : Nat → Matrix (Fin N) (Fin N) ℝ) (u : Nat) 
     (hc : isEnvLeaf c p = true) : LeafAdjAt (matEnv N W) u c p := by
   intro x y hx hy
   cases c <;> simp only [isEnvLeaf, Bool.false_eq_true] at hc
-  · simp only [Op.outS, squareLeaf, Bool.false_eq_true, if_false] at hy
-    simp only [leafDen, leafDenT, matEnv, squareLeaf, Bool.false_eq_true, if_false]
+  · have hs : denseShared p = false := by simpa using hc
+    simp only [Op.outS, squareLeaf, Bool.false_eq_true, if_false] at hy
+    simp only [leafDen, leafDenT, matEnv, squareLeaf, Bool.false_eq_true, if_false, hs]
     exact mat_adjoint N (W u) _ _ x y hx hy
   · have hK : toepK p.vals = none := Option.isNone_iff_eq_none.mp hc
     simp only [Op.outS, squareLeaf, if_true] at hy
@@ -1591,7 +1482,7 @@ noncomputable def listAdjCore (E : Env) : AdjCore V ℝ where
   dot_zero_right := dot_nil_right
 
 /-- the closed theorem in the vocabulary of the framework: `op.T` is the adjoint of `op` (`AdjCore.IsAdjointOn`)
-for every valid expression without dense leaves — including block containers and lazy inverses, which the
+for every valid expression whose dense leaves have a shared block array — including block containers and lazy inverses, which the
 abstract induction `AdjCore.transpose_adjoint` (fragment `Frag`) does not reach -/
 theorem listAdjCore_isAdjointOn (E : Env) (hE : EnvAdj E) (o t : Op) (hv : ValidT o) (hw : o.WFT)
     (h : transposeOp o = .ok t) : (listAdjCore E).IsAdjointOn o t :=
